@@ -34,7 +34,16 @@ def run_check(tree, out, chk, tier="quick"):
             first = lines[i + 1].strip()[:400]; break
     if rc not in (0, 1):
         first = " / ".join(lines[-4:])[:400]
-    return {"rc": rc, "violations": len(viol), "first_violation": first, "secs": round(time.time() - t, 1), "repo_head": HEAD[:7]}
+    r = {"rc": rc, "violations": len(viol), "first_violation": first, "secs": round(time.time() - t, 1), "repo_head": HEAD[:7]}
+    ev = os.path.join(out, "evidence", chk + ".json")
+    if os.path.exists(ev):
+        cov = json.load(open(ev)).get("coverage", {})
+        conf = {k: v.get("status") for k, v in cov.items() if k.startswith("conformance_with") and isinstance(v, dict)}
+        if conf:
+            r["conformance"] = conf
+        if cov.get("controlled_legs"):
+            r["controlled_legs"] = cov["controlled_legs"]
+    return r
 
 def one(d):
     name = d.rstrip("/").split("/")[-2] + "_" + d.rstrip("/").split("/")[-1]
